@@ -275,7 +275,11 @@ def check(ctx):
                     ctx.ob("C11.A2", f"{f.short}/bare-reraise", bare, loc(f, h),
                            "bare raise" if bare else "handler does not re-raise with a bare raise", head(h))
         elif not stagefile_like(m, f, publish):
-            ctx.ob("C11.A2", f"{f.short}/handler-class", False, loc(f, ystmt),
+            # no handler: fine exactly when a finally does the cleanup for every exception class - which is what the
+            # path obligation cleanup-on-exception above has decided (must-pass on the exceptional out-edge of the yield)
+            covered = all(g.must_pass(yn, removes, exits={g.raise_exit, g.exit}, first_labels={"e"}) for yn in ynodes) and bool(removes)
+            ctx.ob("C11.A2", f"{f.short}/handler-class", covered, loc(f, ystmt),
+                   "cleanup runs for every exception class (finally)" if covered else
                    "the yield is not protected by any exception handler", norm(ystmt))
 
         # ------------------------------------------------------------ A3 close before rename
